@@ -272,6 +272,18 @@ def discharge(ctx, body, p, ev, kind):
                 if isinstance(at, tuple) and at[0] == "binop" and at[1] == "Add" and (const_int(at[3]) or 0) >= k:
                     return "G3-prefix-of-length-n+k"
         return None
+    if kind.startswith("assert:Overflow(Mul)"):
+        a, b = ev.mops
+        # the length of an in-memory buffer (at most isize::MAX) times 1 or 2 fits in usize
+        for x, y in ((a, b), (b, a)):
+            if length_of(x) is not None and const_int(y) is not None and 0 <= const_int(y) <= 2:
+                return "G5-length-times-small-constant"
+        return None
+    if kind.startswith("assert:Overflow(Shr)") or kind.startswith("assert:Overflow(Shl)"):
+        a, b = ev.mops
+        if const_int(b) is not None and 0 <= const_int(b) <= 7:
+            return "G5-shift-by-less-than-eight-bits"
+        return None
     if kind in ("assert:DivisionByZero", "assert:RemainderByZero"):
         return None   # the divisor is the assert's operand; a constant non-zero divisor produces no assert at all
     if kind == "assert:BoundsCheck":
@@ -282,6 +294,23 @@ def discharge(ctx, body, p, ev, kind):
             return "G1-length-fixed"
         if index_below_len(p, bb, ix, coll):
             return "G1-index-checked-below-length"
+        # a table of constant length L indexed by (x & m) with m < L, or by (b >> s) of a byte b with 256 >> s <= L
+        L_ = const_int(ln)
+        if L_ is not None:
+            i0 = strip_refs(ix)
+            byte_src = False
+            for _ in range(3):
+                if is_call(i0, "for usize>::from", "usize::from", "::from") and len(call_args(i0)) == 1:
+                    byte_src = byte_src or "From<u8>" in i0[1] or "u8" in " ".join(str(g_) for g_ in i0[2])
+                    i0 = strip_refs(call_args(i0)[0])
+                elif isinstance(i0, tuple) and i0 and i0[0] == "cast":
+                    byte_src = byte_src or (len(i0) > 2 and str(i0[2]) == "u8")
+                    i0 = strip_refs(i0[-1])
+            if isinstance(i0, tuple) and i0 and i0[0] == "binop":
+                if i0[1] == "BitAnd" and ((const_int(i0[3]) is not None and 0 <= const_int(i0[3]) < L_) or (const_int(i0[2]) is not None and 0 <= const_int(i0[2]) < L_)):
+                    return "G1-index-masked-below-table-length"
+                if i0[1] == "Shr" and byte_src and const_int(i0[3]) is not None and 0 <= const_int(i0[3]) <= 7 and (256 >> const_int(i0[3])) <= L_:
+                    return "G1-byte-shifted-below-table-length"
         ixs = strip_refs(ix)
         if isinstance(ixs, tuple) and ixs[0] == "binop" and ixs[1] == "Sub" and const_int(ixs[3]) == 1 and is_call(strip_refs(ixs[2]), "::len") \
                 and strip_refs(call_args(strip_refs(ixs[2]))[0]) == strip_refs(coll) and len_gt(p, bb, coll, 0):
@@ -538,6 +567,10 @@ def discharge(ctx, body, p, ev, kind):
                 return "G7-small-constant-capacity"
             if is_call(strip_refs(n_), "::len", "::count") or (isinstance(strip_refs(n_), tuple) and strip_refs(n_)[0] == "binop" and bounded_size(n_)):
                 return "G5-capacity-from-a-length"
+            n0 = strip_refs(n_)
+            if isinstance(n0, tuple) and n0 and n0[0] == "binop" and n0[1] == "Mul" and const_int(n0[3]) is not None and 0 <= const_int(n0[3]) <= 16 and length_of(n0[2]) is not None \
+                    and mentions(n0[2], lambda s_: is_call(s_, "GenericArray<T, N> as std::ops::Deref>::deref", "GenericArray")):
+                return "G7-capacity-from-a-fixed-size-array"      # a digest output: a few dozen bytes
             return None
         if last in ("windows", "chunks", "chunks_exact", "step_by"):
             k = const_int(ev.args[1])
